@@ -399,3 +399,8 @@ impl<'a> crate::fdl::FdlApplication for DpMaster<'a> {
         // log::warn!("Timeout while waiting for response from #{}!", addr);
     }
 }
+
+#[cfg(kani)]
+mod verif {
+    include!(concat!(env!("PROFIRUST_VERIF_HARNESS"), "/dp_master.rs"));
+}
